@@ -342,6 +342,25 @@ def handshake (H : Key → Hash) (live : ULM) (k : Key) : Option Name :=
   | none => none
   | some (n, k') => if k' = k then some n else none
 
+/-- every way `HandleStream` can return on a multi-user server -/
+inductive HsResult where
+  | request (user : Name)    -- authenticated: a connection request, attributed to `user`
+  | fallback (user : Name)   -- not authenticated, forwarded to the unsafe fallback address; `user` = the Username it carries
+  | refused                  -- not authenticated, no fallback address: an error
+deriving DecidableEq, Repr
+
+/-- `HandleStream` for a connection whose identity header carries hash `h` and whose fixed-length header is
+sealed under key `k` (a genuine client has `h = H k`; anybody holding the server iPSK can put any user's
+hash there). The username is set as soon as the lookup succeeds, before the header is opened; what the
+fallback branch hands back depends on the regenerated fact `fallbackFreshRequest`. -/
+def handleStream (H : Key → Hash) (hasFallback : Bool) (live : ULM) (h : Hash) (k : Key) : HsResult :=
+  match find live h with
+  | none => if hasFallback then .fallback "" else .refused
+  | some (n, k') =>
+    if k' = k ∧ H k = h then .request n
+    else if hasFallback then .fallback (if fallbackFreshRequest then "" else n)
+    else .refused
+
 /-- `Credentials()` -/
 def listed (st : St) : List Entry := canon st.cache
 
